@@ -36,7 +36,7 @@ CHECKS = {
         category="model_checking",
         engine="E1 + H3",
         technique="exhaustive enumeration of all add/remove sequences (no state merging) on a real Server, probing every (service, message) pair through real clients after every event, against a set-of-names reference model",
-        text="All 6^5 (quick) / 6^7 (thorough) sequences over {add, remove} x three services (two sharing a message type, one with two message types), including re-adding and removing absent services; after every event four probes through real RpcClients must be served by exactly the right handler iff the reference set says registered, else refused as ServiceUnavailable.",
+        text="All 9^5 (quick) / 9^7 (thorough) sequences over {add, remove} on five services (two sharing a message type, one with two message types, two registered under one shared service name), including re-adding and removing absent services; after every event six probes through real RpcClients must be served by exactly the right handler iff the reference says registered, else refused as ServiceUnavailable.",
         note="Dispatch through the in-process transport (URI construction, handler lookup, status encoding are production code).",
         design="DESIGN.md section 3, C13",
     ),
@@ -108,7 +108,7 @@ CHECKS = {
         category="fault_enumeration",
         engine="E1 by replay + crash points, Layer B single node",
         technique="exhaustive crash-point enumeration over request histories on the real keyspace group/actors: after every history and inside every possible next request after each document written by storage; restart = fresh KeyspaceGroup + real load_states_from_storage on the same store, compared with the store's rows",
-        text="Histories over 31 (quick) / ~60 (thorough) requests on two keyspaces (single and bulk, two ids sharing one stamp as put_many/del_many produce, same id twice, both sources, purge) are enumerated breadth-first to depth 3/4 and deduplicated by the node's whole state. At every crash point the rebuilt sets must hold exactly the live ids, tombstones and stamps storage holds for every keyspace storage lists, keyspaces with rows must be listed, and the restarted node must keep agreeing with its store after one more request. Thorough adds file-backed SQLite and LMDB with a real stop (runtime dropped, environment closed) and reopen.",
+        text="Histories over ~35 (quick) / ~65 (thorough) requests on two keyspaces (single and bulk, two ids sharing one stamp as put_many/del_many produce, same id twice, both sources, purge, transient storage failures) are enumerated breadth-first to depth 3/4 and deduplicated by the node's whole state. At every crash point the rebuilt sets must hold exactly the live ids, tombstones and stamps storage holds for every keyspace storage lists, keyspaces with rows must be listed, the restarted node must keep agreeing with its store after one more request, and every request that was acknowledged must be durable in storage (at that stamp or newer, unless behind the cut-off). Thorough adds file-backed SQLite and LMDB with a real stop (runtime dropped, environment closed) and reopen.",
         note="Crash granularity = storage call boundaries and 'storage wrote k documents, set not yet updated'. Torn writes inside SQLite/LMDB are not modelled.",
         design="DESIGN.md section 3, C07",
     ),
@@ -131,9 +131,9 @@ CHECKS = {
     "C08": dict(
         category="model_checking",
         engine="E1 Layer A",
-        technique="stateless DFS over timely delivery sequences with purge events on the real OrSWotSet; purge evaluated in every reached state; stale-operation probes; differential oracle purge vs no purge",
-        text="Local clauses: in every state reached by timely delivery sequences (pool with >1h gaps so purges really fire, both sources, up to 2 purge events anywhere) a purge is evaluated: lookups and live entries unchanged, only genuine tombstones older than their origin's cut-off are returned, cut-offs never decrease, and every operation from the deleting node not newer than a purged delete is refused by will_apply and by insert/delete on both sources without changing the state; histories with purges give the same lookups as the same history without them.",
-        note="Cluster clause (purging replicas converge like non-purging ones under timely delivery with skew) is explored by the Layer-A cluster model added later in this session; until then only the local clauses are decided. 2 keys, 2 origins, 10 stamps.",
+        technique="local clauses: stateless DFS over timely delivery sequences with purge events on the real OrSWotSet (purge evaluated in every state, stale-operation probes); cluster clause: explicit-state DFS over a 2-3 replica model with explicit time and clock skew whose replicas are real OrSWotSet values, timeliness enforced by the explorer, differential oracle against a never-purging twin in every state",
+        text="Local: in every state reached by timely delivery sequences (pool with >1h gaps so purges fire, both sources, up to 2 purges, depth 6/8) a purge leaves lookups and live entries unchanged, returns only genuine tombstones older than min-over-sources minus 1h, never lowers a cut-off, and every operation from the deleting node not newer than a purged delete is refused without changing the state. Cluster: events issue / direct delivery / repair (real diff + actor-style batches) / purge / 20-minute time advance with skew {0,20} min; the explorer refuses to advance time while an operation would stay undelivered beyond 1h minus the skew spread; every state after a purge is compared with a twin that saw the same events without purges, and is also closed (pending deliveries, two full repair rounds) and compared with twin and the last-writer-wins reference (quick: 3.8 M model states, 7 k closings).",
+        note="Cluster model replicas are real OrSWotSet values; the actor's batch glue is restated (bound to the code by C02/C01). Dedup key includes the path length because the event bound is a path property. 2-3 replicas, <=4 operations, 2 keys.",
         design="DESIGN.md section 3, C08",
     ),
     "C09": dict(
